@@ -319,7 +319,7 @@ func runLive(r *ev.Run, seed int64, transfers int) {
 		} else {
 			notDone++
 		}
-		time.Sleep(time.Duration(rg.Intn(30)) * time.Millisecond)
+		time.Sleep(time.Duration(rg.Intn(150)) * time.Millisecond)
 	}
 	r.Count("live_transfers_completed", int64(done))
 	r.Count("live_transfers_not_confirmed", int64(notDone))
